@@ -2,7 +2,7 @@
 import ast
 import re
 
-from ..core import AnalysisError, norm, short, walk_local, stale_loop_uses
+from ..core import reaching_assign, AnalysisError, norm, short, walk_local, stale_loop_uses
 from ..cfg import cfg_of, forward
 from . import register
 from ..inline import inlined_view
@@ -60,6 +60,13 @@ def eval_pred(e, ch, var):
     if isinstance(e, ast.Constant):
         return bool(e.value)
     raise _Unknown(norm(e))
+
+
+def _lengthens(v):
+    """v builds a string out of other strings and literal text (concatenation, f-string, format, %): it can be longer than its parts"""
+    from ..strings import template
+    t = template(v)
+    return t is not None and len(t) >= 2 and any(not isinstance(p, str) for p in t)
 
 
 def _as_guards(f):
@@ -340,7 +347,7 @@ def check_c17(ctx, R):
             name = a.targets[0].id
             if isinstance(v, ast.Call) and norm(v.func) == "self._length_fix" and v.args and norm(v.args[0]) in st | {name}:
                 return st - {norm(v.args[0]), name}
-            if isinstance(v, ast.BinOp) and isinstance(v.op, ast.Add):
+            if _lengthens(v):
                 return st | {name}
             if isinstance(v, ast.Name) and v.id in st:
                 return st | {name}
@@ -360,7 +367,7 @@ def check_c17(ctx, R):
     for n in cfg.nodes:
         if n.id in state:
             transfer(n, state[n.id], bad)
-    grow = [a for a in walk_local(cf.node) if isinstance(a, ast.Assign) and isinstance(a.value, ast.BinOp) and isinstance(a.value.op, ast.Add)]
+    grow = [a for a in walk_local(cf.node) if isinstance(a, ast.Assign) and _lengthens(a.value)]
     R.count("identifier-lengthening statements in _conflicts_fix (I2)", len(grow))
     R.floor("identifier-lengthening statements in _conflicts_fix (I2)", 2)
     if bad:
@@ -493,6 +500,11 @@ def _i4(ctx, R):
         if isinstance(c, ast.Call) and norm(c.func) == "self._add_rename_property" and len(c.args) >= 2:
             n += 1
             obj, ns = c.args[0], c.args[1]
+            if isinstance(ns, ast.Name):
+                # the sibling container held in a local bound just before the call (`siblings = netlist.libraries`)
+                d_ = reaching_assign(c, ns.id)
+                if d_ is not None and d_.value is not None and isinstance(d_.value, (ast.Attribute, ast.List, ast.Call)):
+                    ns = d_.value
             loops = []
             p_ = getattr(c, "_parent", None)
             while p_ is not None and p_ is not ed.node:
